@@ -13,7 +13,10 @@ print("| property | witness key | what fails and why it is not repaired |\n|---|
 for f in k["findings"]:
     print(f"| {f['property']} | `{f['key']}` | {f['what']} |")
 print("\n### Seeded changes (independent sub-agents) and which checks catch them\n")
-print("| id | change | needs | caught by | first run |\n|---|---|---|---|---|")
+print("| id | change (abridged) | needs (abridged) | caught by | first run | what the check reported |\n|---|---|---|---|---|---|")
+def cut(t, n):
+    t = " ".join(str(t).split()).replace("|", "/")
+    return t if len(t) <= n else t[:n].rsplit(" ", 1)[0] + " …"
 for d in sorted(glob.glob(f"{V}/seeded/*/meta.json")):
     m = json.load(open(d)); v = m.get("verification", {})
-    print(f"| {m.get('breaks_property')} | {m.get('summary','')[:260]} | {m.get('needs','')[:220]} | {'; '.join(v.get('caught_by', [])) or '**not caught**'} | {'missed, check widened' if v.get('initially_missed') else 'caught'} |")
+    print(f"| {m.get('breaks_property')} | {cut(m.get('summary',''), 230)} | {cut(m.get('needs',''), 200)} | {'; '.join(v.get('caught_by', [])) or '**not caught**'} | {'missed, check widened, now caught' if v.get('initially_missed') else 'caught'} | {cut(v.get('result',''), 200)} |")
